@@ -163,7 +163,7 @@ Section Reforming.
     assert (J1 : ((qm =? 1) && (qd =? 1)) = (r =? G0 qy)).
     { destruct (Z.eq_dec qm 1) as [->|N]; [rewrite cum_1 in *; lia|].
       pose proof (cum_mono (gleap qy) 1 qm ltac:(lia) ltac:(lia) ltac:(lia)). rewrite cum_1 in *. pose proof (mlen_bounds (gleap qy) 1). lia. }
-    rewrite D31, J1. unfold range_ord_int, range_ord. rewrite !ylen_eq in *.
+    rewrite ?D31, ?J1. unfold range_ord_int, range_ord. rewrite !ylen_eq in *.
     pose proof (gleap_jleap y) as GJ.
     destruct (Z.ltb_spec y py) as [L1|L1]; cbn [bind].
     - (* strictly Julian year *)
